@@ -263,11 +263,36 @@ fn run_history(start_mb: usize, ops: &[Op], l: &mut Local) -> Result<(), (String
                     Op::Resize { mb } => {
                         l.feat("resize");
                         let mb = *mb;
+                        let same_size = mb == size_mb;
+                        let occ_before = if same_size && model.entries > 0 { guarded(|| tt.occupancy()).unwrap_or(0) } else { 0 };
                         let r = guarded(|| {
                             let _ = tt.resize(mb);
                         });
                         size_mb = mb;
                         model.entries = calculate_number_of_entries::<SearchTranspositionTableData>(mb);
+                        if same_size && r.is_ok() {
+                            // A resize to the current size may legitimately do nothing at all (what this engine does) or
+                            // empty the table like any other resize. What it may not do is a bit of both: whichever of the
+                            // two its counters claim is then checked in full.
+                            l.feat("resize_to_the_current_size");
+                            // "claims to be empty" only if a counter visibly says so (the fill indicator is in permille and
+                            // reads 0 for a nearly empty table anyway)
+                            let occ_after = if model.entries > 0 { tt.occupancy() } else { 0 };
+                            let claims_empty = (tt.generation == 0 && model.generation != 0) || (occ_before > 0 && occ_after == 0);
+                            if !claims_empty {
+                                if tt.generation != model.generation {
+                                    return Err(("c19.same-size-resize.half-done".into(), format!("a resize to the current size ({mb} MB) left the entries alone but changed the search counter from {} to {}", model.generation, tt.generation)));
+                                }
+                                if model.entries > 0 {
+                                    let got = tt.occupancy() as i64;
+                                    let want = (1000u128 * model.filled as u128 / model.entries as u128) as i64;
+                                    if (got - want).abs() > 1 {
+                                        return Err(("c19.same-size-resize.half-done".into(), format!("a resize to the current size ({mb} MB) left the search counter alone but the fill indicator reads {got} with {} of {} slots occupied", model.filled, model.entries)));
+                                    }
+                                }
+                                continue;
+                            }
+                        }
                         r
                     }
                     _ => unreachable!(),
@@ -341,8 +366,8 @@ fn gen_history(rng: &mut Rng, sizes: &[usize], n_ops: usize, next_id: &mut u64) 
             ops.push(Op::Reset);
         } else {
             let mut to = *rng.pick(sizes);
-            if to == mb {
-                // a resize to the current size is a documented no-op, not a resize: never issued
+            if to == mb && rng.chance(2, 3) {
+                // (one time in three the current size is asked for again: see the model)
                 to = *sizes.iter().find(|s| **s != mb).unwrap_or(&(mb + 1));
             }
             mb = to;
